@@ -1,5 +1,6 @@
 import Poulpy.Model.Layout
 import Poulpy.Lemmas.Bytes
+import Poulpy.Lemmas.Kernels
 /-!
 # C17 — safe API calls never access memory outside the buffers they were given  (proof, partial)
 
@@ -369,5 +370,85 @@ theorem compact_in_bounds (n nBlocks k c : Nat) (hk : k < nBlocks) (hc : c < n) 
   have e3 : 4 * n * nBlocks = 4 * (n * nBlocks) := Nat.mul_assoc _ _ _
   rw [e1, e2, e3]; omega
 example : traceClobbers (compactTrace 4 3) = false ∧ (compactTrace 4 3).length = 24 := by decide
+
+/-! ## raw-pointer kernels: footprints in bounds
+
+`Kern.*` (Model/Kernels.lean) lists, for given arguments, every element range a kernel reads or writes — transcribed
+from the AVX pointer arithmetic.  `InBounds len foot`: every range ends inside its buffer.  The hypotheses are the
+kernel's entry assertions plus the layout invariant of the buffers the HAL wrapper passes (buffer lengths as
+`n·cols·size`), including the size of the temporary the wrapper takes from scratch. -/
+
+open Kern
+
+/-- buffer lengths of a call: 0 = output, 1 = first input, 2 = second input, 3 = temporary -/
+def lens4 (l0 l1 l2 l3 : Nat) : Nat → Nat
+  | 0 => l0
+  | 1 => l1
+  | 2 => l2
+  | _ => l3
+
+theorem pmatOff_le (nrows ncols row col : Nat) (hr : row < nrows) (hc : col < ncols) :
+    pmatOff nrows ncols row col + 8 ≤ nrows * ncols * 8 := by
+  unfold pmatOff
+  split
+  · rename_i h
+    obtain ⟨h1, _⟩ := h
+    have e : col + 1 = ncols := by omega
+    have k : col * nrows + (row + 1) ≤ ncols * nrows := by
+      have := blk_fit (blk := col) (q := ncols) (Q := nrows) (x := row + 1) hc (by omega)
+      exact this
+    calc col * nrows * 8 + row * 8 + 8 = (col * nrows + (row + 1)) * 8 := by omega
+      _ ≤ ncols * nrows * 8 := Nat.mul_le_mul_right _ k
+      _ = nrows * ncols * 8 := by rw [Nat.mul_comm ncols nrows]
+  · rename_i h
+    have h2 : 2 * (col / 2 + 1) ≤ ncols := by
+      by_cases hp : col % 2 = 1
+      · omega
+      · have : ¬ (col = ncols - 1 ∧ ncols % 2 = 1) := h
+        by_cases he : col = ncols - 1
+        · have : ncols % 2 ≠ 1 := fun hh => this ⟨he, hh⟩
+          omega
+        · omega
+    have k1 : col / 2 * (nrows * 16) + (row * 16 + 16) ≤ (col / 2 + 1) * (nrows * 16) := by
+      have := blk_fit (blk := col / 2) (q := col / 2 + 1) (Q := nrows * 16) (x := row * 16 + 16) (by omega) (by omega)
+      exact this
+    have k2 : (col / 2 + 1) * (nrows * 16) ≤ nrows * ncols * 8 := by
+      calc (col / 2 + 1) * (nrows * 16) = (2 * (col / 2 + 1)) * (nrows * 8) := by
+            rw [Nat.mul_comm 2 (col / 2 + 1), Nat.mul_assoc, show 2 * (nrows * 8) = nrows * 16 by omega]
+        _ ≤ ncols * (nrows * 8) := Nat.mul_le_mul_right _ h2
+        _ = nrows * ncols * 8 := by rw [← Nat.mul_assoc, Nat.mul_comm ncols nrows]
+    have : col % 2 * 8 + 8 ≤ 16 := by omega
+    omega
+
+/-- **`vmp_prepare_core`** (FFT64, ref and AVX): under its entry assertions (`n = 2m ≥ 8` a power of two, i.e. `4 ∣ m`;
+`mat.len() = pmat.len() = n·nrows·ncols`; `tmp.len() = n`) every read of `mat`, every access of `tmp` and every
+4-lane store into the block-interleaved `pmat` is in bounds — including the odd last column -/
+theorem vmp_prepare_in_bounds (m nrows ncols : Nat) (hm : m % 4 = 0) :
+    InBounds (lens4 (2 * m * nrows * ncols) (2 * m * nrows * ncols) 0 (2 * m)) (vmpPrepare m nrows ncols) := by
+  unfold vmpPrepare
+  refine inb_flatMap (fun row hrow => inb_flatMap (fun col hcol => ?_))
+  have hr : row < nrows := List.mem_range.mp hrow
+  have hc : col < ncols := List.mem_range.mp hcol
+  refine inb_append (inb_cons ?_ (inb_cons ?_ (inb_nil _))) (inb_flatMap (fun blk hblk => ?_))
+  · simp only [rd, lens4]
+    have k : row * ncols + (col + 1) ≤ nrows * ncols := blk_fit hr (by omega)
+    calc 2 * m * (row * ncols + col) + 2 * m = 2 * m * (row * ncols + (col + 1)) := by rw [Nat.mul_add (2 * m) _ (col + 1), Nat.mul_add (2*m) _ col, Nat.mul_add (2*m) col 1]; omega
+      _ ≤ 2 * m * (nrows * ncols) := Nat.mul_le_mul_left _ k
+      _ = 2 * m * nrows * ncols := by rw [Nat.mul_assoc (2 * m) nrows ncols]
+  · simp only [wt, lens4]; omega
+  · have hb : blk < m / 4 := List.mem_range.mp hblk
+    refine extract1blk_inb m 1 blk _ _ ?_ ?_
+    · simp only [lens4]; omega
+    · simp only [lens4]
+      have k := blk_fit (blk := blk) (q := m / 4) (Q := nrows * ncols * 8) (x := pmatOff nrows ncols row col + 8) hb
+        (pmatOff_le nrows ncols row col hr hc)
+      have e : m / 4 * (nrows * ncols * 8) = 2 * m * nrows * ncols := by
+        have hm4 : m = 4 * (m / 4) := by omega
+        calc m / 4 * (nrows * ncols * 8) = (m / 4 * 8) * (nrows * ncols) := by
+              rw [Nat.mul_comm (nrows * ncols) 8, ← Nat.mul_assoc]
+          _ = 2 * m * (nrows * ncols) := by rw [show m / 4 * 8 = 2 * m by omega]
+          _ = 2 * m * nrows * ncols := by rw [Nat.mul_assoc (2 * m) nrows ncols]
+      omega
+example : InBounds (lens4 (16 * 2 * 3) (16 * 2 * 3) 0 16) (vmpPrepare 8 2 3) ∧ (vmpPrepare 8 2 3).length = 60 := by decide
 
 end C17
